@@ -37,14 +37,24 @@ def check_conflict_terms(rep, rule, fb):
     tp = terms(pc.walk())
     n_anc = sum(1 for s in pc.walk() if s.get('callee', {}).get('q', '').endswith('DOMUtils::isDescendant'))
     prep = fb.fn('uscxml::ChartToC::prepare')
+
+    def expanded(cond):
+        """nodes of a condition, looking through calls to repository helpers (an extracted `transitionsConflict(t1, t2)`)"""
+        out = []
+        for x in sub(cond):
+            out.append(x)
+            c = x.get('callee')
+            if c and not c.get('ext') and c['m'] in fb.funcs and not c['q'].startswith(('uscxml::DOMUtils::', 'uscxml::X::')) and c['q'] not in ('uscxml::getExitSet', 'uscxml::getSourceState'):
+                out += list(fb.funcs[c['m']].walk())
+        return out
     cif = None
     for n in prep.walk():
-        if n['k'] == 'IfStmt' and terms(sub(n['c'][0])) >= {'exit-set-intersection'}:
+        if n['k'] == 'IfStmt' and terms(expanded(n['c'][0])) >= {'exit-set-intersection'}:
             cif = n
     if cif is None:
         raise AnalysisBroken('ChartToC::prepare: conflict test not found')
-    tc = terms(sub(cif['c'][0]))
-    n_anc_c = sum(1 for s in sub(cif['c'][0]) if s.get('callee', {}).get('q', '').endswith('DOMUtils::isDescendant'))
+    tc = terms(expanded(cif['c'][0]))
+    n_anc_c = sum(1 for s in expanded(cif['c'][0]) if s.get('callee', {}).get('q', '').endswith('DOMUtils::isDescendant'))
     rep.check(tp == tc == {'source-ancestry', 'exit-set-intersection'} and n_anc == n_anc_c == 2, rule, 'conflict terms', locstr(cif),
               'Predicates.cpp::conflicts uses %s (%d ancestry tests); ChartToC::prepare uses %s (%d)' % (sorted(tp), n_anc, sorted(tc), n_anc_c))
 
@@ -215,7 +225,7 @@ def run(rep, tier):
                 continue
             uses = [n for n in f.walk() if n['k'] == 'DeclRefExpr' and n['ref'].get('name') == 'kXMLCharInitial' and any(a['k'] in ('CXXMemberCallExpr',) and a.get('callee', {}).get('q', '').endswith('getAttribute') for a in f.ancestors(n))]
             if uses:
-                rep.fail('R05.1', '%s|interprets initial' % f.q.split('uscxml::')[-1], locstr(uses[0]), '%s reads the `initial` attribute itself (%d site(s)): default completion in this output is not the completionBools table ChartToC computes (initial elements, multi-target initial lists and deep completions are not covered)' % (f.q.split('uscxml::')[-1], len(uses)))
+                rep.fail('R05.1', '%s|interprets initial' % f.q.split('uscxml::')[-1].split('::')[0], locstr(uses[0]), '%s reads the `initial` attribute itself (%d site(s)): default completion in this output is not the completionBools table ChartToC computes (initial elements, multi-target initial lists and deep completions are not covered)' % (f.q.split('uscxml::')[-1], len(uses)))
     rep.ok('R05.1', 'initial-attribute', 'functions of the three back-ends scanned for their own interpretation of `initial`')
 
     # ---- R05.2
